@@ -838,9 +838,16 @@ def c04_programs(rng, tier) -> List[Item]:
             for oo in (o1, o2, o1):
                 P.evaluate(seq_opt, oo)
                 meta["c04"].append({"op": len(P.ops) - 1, "key": "A", "dflt": "none", "domain": "ALLOWED", "opt": seq_opt})
-        # Option.set
-        for key, v, _ in combos[chunk_start:chunk_start + 4]:
-            meta.setdefault("sets", []).append({"key": key, "value": v})
+        # Option.set: a new dictionary in which the Option evaluates to the value set, everything else intact,
+        # the input unmodified (also when a second `set` follows on the same input)
+        for key, v, _ in combos[chunk_start:chunk_start + 6]:
+            if isinstance(v, dict) or any(seg.isdigit() for seg in key.split(".")):
+                continue          # the statement is about non-mapping values; index segments: known finding F17
+            base = {"B": rng.choice([0, "b"]), "S": {"X": 1, "Y": {"Z": 2}, "U": {"W": 3}}, "T": {"X": 9}, "N": {}, "A": 5}
+            if rng.random() < 0.3:
+                base = {"B": 1}
+            P.raw_op(op="set_get", n=P.option(key), o=sort_json(base), v=v, v2="other")
+            meta.setdefault("sets", []).append({"op": len(P.ops) - 1, "key": key, "value": v, "base": sort_json(base)})
         items.append((P.to_json(), meta))
     items += namespace_items(rng, sizes(tier, 40, 300))
     return items
@@ -890,6 +897,36 @@ def ref_has_template(v) -> bool:
 
 def c04_oracle(prog, meta, impl, model):
     out = []
+    for c in meta.get("sets", []):
+        a = impl[c["op"]] if c["op"] < len(impl) else None
+        if a is None or "r" not in a:
+            continue
+        if ref_get(c["key"], c["base"])[0] == "type" or _scalar_on_path(c["key"], c["base"]):
+            continue      # assigning below a scalar: F10 territory
+        if not is_ok(a) and ref_has_template(c["value"]):
+            continue      # the value set is itself a template (possibly dangling in this dictionary)
+        if not is_ok(a):
+            out.append(("Option.set / evaluation on its result failed", c["op"], {"key": c["key"], "value": c["value"],
+                                                                               "base": c["base"], "got": a["r"]}))
+            continue
+        new, got, after, stable = a["r"][1]
+        if ref_has_template(c["value"]):
+            pass
+        elif dumps(got) != dumps(c["value"]):
+            out.append(("after Option.set the Option does not evaluate to the value set", c["op"],
+                        {"key": c["key"], "value": c["value"], "got": got, "new": new}))
+        if dumps(after) != dumps(c["base"]):
+            out.append(("Option.set modified its input dictionary", c["op"], {"key": c["key"], "before": c["base"], "after": after}))
+        if stable is not True:
+            out.append(("a later Option.set on the same input changed an earlier result (shared sections)", c["op"],
+                        {"key": c["key"]}))
+        # all other keys intact
+        for other in ("B", "A", "T.X", "S.Y.Z", "S.U.W", "S.X"):
+            if other == c["key"] or other.startswith(c["key"] + ".") or c["key"].startswith(other + "."):
+                continue
+            g0, g1 = ref_get(other, c["base"]), ref_get(other, new)
+            if g0[0] == "found" and (g1[0] != "found" or dumps(g0[1]) != dumps(g1[1])):
+                out.append(("Option.set lost or changed another key", c["op"], {"key": c["key"], "other": other, "new": new}))
     for c in meta.get("c04", []):
         i = c["op"]
         if i >= len(impl) or "r" not in impl[i]:
@@ -902,7 +939,22 @@ def c04_oracle(prog, meta, impl, model):
         dom_ok = None
         if g[0] == "found":
             v = g[1]
-            if not ref_has_template(v):
+            if ref_has_template(v):
+                # templated strings (also inside sections and lists) are resolved against the same options
+                try:
+                    want = ref_resolve_value(v, o, {}, set())
+                except KeyError:
+                    want = _SKIP
+                    if is_ok(a):
+                        out.append(("a present value with a dangling reference was returned instead of a missing-key error", i,
+                                    {"key": c["key"], "stored": v, "got": a["r"], "options": o}))
+                except (ValueError, RecursionError, TypeError):
+                    want = _SKIP
+                if want is not _SKIP and c["domain"] is None:
+                    if not is_ok(a) or dumps(a["r"][1]) != dumps(want):
+                        out.append(("a present templated value was not resolved against the options", i,
+                                    {"key": c["key"], "stored": v, "expected": want, "got": a["r"], "options": o}))
+            else:
                 if is_ok(a):
                     if dumps(a["r"][1]) != dumps(_enc_plain(v)):
                         out.append(("a present option value is not what the Option yields", i,
@@ -922,6 +974,18 @@ def c04_oracle(prog, meta, impl, model):
             elif c["dflt"] in ("const_falsy", "const") and is_ok(a) and c["domain"] is None:
                 pass
     return out
+
+
+def _scalar_on_path(key, o):
+    segs = key.split(".")
+    cur = o
+    for sg in segs[:-1]:
+        if not isinstance(cur, dict):
+            return True
+        if sg not in cur:
+            return False
+        cur = cur[sg]
+    return not isinstance(cur, dict)
 
 
 def _enc_plain(v):
@@ -1142,10 +1206,50 @@ def _bool_int_twin(o, rng):
     return sort_json(o2)
 
 
+def derived_family_items(rng, n) -> List[Item]:
+    """chains and siblings of `with_options` / `with_default_options` on a dataset that already has pre-set and default
+    options, all touching the same sections with different keys; every member is compared, on the same caller
+    dictionaries and in one history (shared caches), with the plain dataset under the independently computed overlay"""
+    items = []
+    SECT = ["S.X", "S.Y", "S.U.V", "T.X", "A", "B"]
+    for _ in range(n):
+        P = Prog()
+        keys = rng.sample(SECT, rng.randint(2, 4))
+        params = [(f"p{i}", P.option(k, dflt=P.value(0) if rng.random() < 0.5 else None)) for i, k in enumerate(keys)]
+
+        def small():
+            d: Dict[str, Any] = {}
+            for k in rng.sample(SECT, rng.randint(1, 2)):
+                _put(d, k, rng.choice([1, 2, 3, "v"]))
+            return d
+        popt, pdef = (small() if rng.random() < 0.7 else {}), (small() if rng.random() < 0.7 else {})
+        name = f"fam{rng.randint(0, 10**6)}"
+        d_plain = P.dataset(params, fn_name=name, cache=P.new_cache("nocache"))
+        base = P.dataset(params, fn_name=name, options=popt, default_options=pdef)
+        members = [(base, popt, pdef)]
+        for _ in range(rng.randint(2, 4)):
+            src, po, pd = rng.choice(members)
+            extra = small()
+            if rng.random() < 0.5:
+                members.append((P.derive(src, extra, default=True), po, ref_mix(pd, extra)))
+            else:
+                members.append((P.derive(src, extra, default=False), ref_mix(po, extra), pd))
+        checks = []
+        for _ in range(3):
+            o = small() if rng.random() < 0.8 else {}
+            for node, po, pd in members:
+                P.evaluate(node, sort_json(o))
+                P.evaluate(d_plain, sort_json(ref_mix(ref_mix(pd, o), po)))
+                checks.append((len(P.ops) - 2, len(P.ops) - 1, "derived dataset (with_options / with_default_options chain)"))
+        items.append((P.to_json(), {"overlay": checks}))
+    return items
+
+
 def c08_programs(rng, tier) -> List[Item]:
     items = corpus_items("C08")
     cfg = Cfg(raising=False, all_options=True)
     items += gen_items(rng, cfg, sizes(tier, 250, 3000), hist_overlay)
+    items += derived_family_items(rng, sizes(tier, 60, 600))
     return items
 
 
@@ -1390,8 +1494,39 @@ def in_domain_program(prog) -> bool:
     return not any(n["k"] == "option" and n.get("dom") is not None for n in prog["nodes"])
 
 
+def dataset_default_items(rng, n) -> List[Item]:
+    """an Option whose default is a dataset (its body reads another option): with the key absent, validate / keys /
+    explain inspect the default without running its body; with the key present the default is not looked at"""
+    items = []
+    for _ in range(n):
+        P = Prog()
+        dflt = P.dataset([("b", P.option("B", dflt=P.value(1) if rng.random() < 0.5 else None))])
+        opt = P.option(rng.choice(["A", "S.X"]), dflt=dflt)
+        shape = rng.choice(["root", "list", "branch", "apply", "arg"])
+        if shape == "root":
+            root = opt
+        elif shape == "list":
+            root = P.collection("list", [P.option("C", dflt=P.value(0)), opt])
+        elif shape == "branch":
+            root = P.switch(P.option("K", bare=True), [("x", opt)], P.value("d"))
+        elif shape == "apply":
+            root = P.apply(opt, P.fnvalue("tostr"))
+        else:
+            root = P.dataset([("v", opt)])
+        recs = []
+        for o in [{}, {"B": 2}, {"A": 5, "S": {"X": 6}}, {"K": "x"}, {"K": "x", "B": 3}, {"K": "x", "A": 0, "S": {"X": None}, "B": 1}]:
+            P.raw_op(op="reset")
+            b = len(P.ops)
+            for op in ("validate", "keys", "explain", "evaluate", "validate", "keys", "evaluate"):
+                P.op(op, root, o)
+            recs.append({"v": b, "k": b + 1, "x": b + 2, "e": b + 3, "wv": b + 4, "wk": b + 5, "we": b + 6})
+        items.append((P.to_json(), {"agree": recs, "root": root}))
+    return items
+
+
 def c10_programs(rng, tier) -> List[Item]:
     items = corpus_items("C10")
+    items += dataset_default_items(rng, sizes(tier, 30, 200))
     cfg = Cfg(raising=False, domains=False, all_options=False, total_fns=True, switches=True)
     items += gen_items(rng, cfg, sizes(tier, 300, 4000), hist_agree)
     cfg2 = Cfg(raising=True, domains=False, all_options=False)
